@@ -7,7 +7,7 @@ LEVEL = 'other'
 EXPLANATION = ('LANG rules over the inlined MIR event graph of every source and every Observer impl: '
                'S1 each basic source delivers exactly its documented notification shape (of = next complete, never = nothing, ...); '
                'S2 error() forwards the error as the only downstream event (no item, aggregate or completion with it) and never swallows it; '
-               'S3 complete() delivers next* then exactly one complete; S5 is_finished answers true only for an empty slot or a finished downstream (otherwise a hot source skips the operator at its terminal); S6 the take_last/skip_last queues are first-in-first-out; S7 the take_last queue never holds more than `count` items after next(), for every count >= 0 (interval abstract interpretation of len - count); S8 the next() bodies of take, skip, skip_last, filter, take_while and skip_while agree with their definitions path by path (decision tables over the counter/bound difference, the predicate result and the mode flags; both directions); S9 distinct_until_(key_)changed replace their remembered item by the incoming one exactly when they forward it and never empty it; S10 value-flow definitions by path-sensitive provenance dataflow: last remembers every item and emits the remembered one, scan applies f(acc, item) once, stores and emits the new acc, default_if_empty clears its flag on every item and emits the default iff it is still set, pairwise emits (previous, item) and refills the previous slot, collect adds every item and emits the collection, map/tap/filter_map/on_error_map apply the user function once to the incoming value and forward as defined, contains answers true exactly on equality and false at the end, distinct(_key) forwards iff the key is new and then records it, buffer_with_count releases and empties the buffer exactly when it holds count items (undecidable terms pass); S12 no terminal is dropped silently: in error()/complete() of every Observer impl, a path that does nothing at all (no call, no write, no take) must have found the slot it would act on empty - an early return on any other condition swallows the terminal (tabled: the notifier sides that ignore their own terminal by definition); S11 the derived operators are the compositions their documentation states: the operator tree each ObservableExt builder returns (provided methods and constructors inlined) is compared with its definition — first = take(1), element_at(n) = skip(n).take(1), all = map.filter(not).take(1).default_if_empty(true), reduce = scan.last.default_if_empty(initial), count/sum/min/max/average with the arithmetic and the comparison direction of their folding functions, take_while vs take_while_inclusive by their flag (38 builders); S4 next() never sends an error and completes downstream only in the '
+               'S3 complete() delivers next* then exactly one complete; S5 is_finished answers true only for an empty slot or a finished downstream (otherwise a hot source skips the operator at its terminal); S6 the take_last/skip_last queues are first-in-first-out; S7 the take_last queue never holds more than `count` items after next(), for every count >= 0 (interval abstract interpretation of len - count); S8 the next() bodies of take, skip, skip_last, filter, take_while and skip_while agree with their definitions path by path (decision tables over the counter/bound difference, the predicate result and the mode flags; both directions); S9 distinct_until_(key_)changed replace their remembered item by the incoming one exactly when they forward it and never empty it; S10 value-flow definitions by path-sensitive provenance dataflow: last remembers every item and emits the remembered one, scan applies f(acc, item) once, stores and emits the new acc, default_if_empty clears its flag on every item and emits the default iff it is still set, pairwise emits (previous, item) and refills the previous slot, collect adds every item and emits the collection, map/tap/filter_map/on_error_map apply the user function once to the incoming value and forward as defined, contains answers true exactly on equality and false at the end, distinct(_key) forwards iff the key is new and then records it, buffer_with_count releases and empties the buffer exactly when it holds count items (undecidable terms pass); S13 initial state: a flag that the notification handlers only ever set to one constant starts as the other one, a counter they only increment starts at 0, wherever the state is constructed (through operator fields and constructors if need be); S12 no terminal is dropped silently: in error()/complete() of every Observer impl, a path that does nothing at all (no call, no write, no take) must have found the slot it would act on empty - an early return on any other condition swallows the terminal (tabled: the notifier sides that ignore their own terminal by definition); S11 the derived operators are the compositions their documentation states: the operator tree each ObservableExt builder returns (provided methods and constructors inlined) is compared with its definition — first = take(1), element_at(n) = skip(n).take(1), all = map.filter(not).take(1).default_if_empty(true), reduce = scan.last.default_if_empty(initial), count/sum/min/max/average with the arithmetic and the comparison direction of their folding functions, take_while vs take_while_inclusive by their flag (38 builders); S4 next() never sends an error and completes downstream only in the '
                'tabled early terminators. Decides the termination shape on every path and, for the tabled operators, which items are forwarded and where each emitted value comes from; does not decide what user closures compute.')
 ASSUMPTIONS = ['what user closures compute is not decided; a provenance term the dataflow cannot resolve makes that clause undecided (it passes)']
 TECHNIQUE = 'static analysis: regular-language inclusion of downstream event words, path-sensitive interval and provenance dataflow, and operator-tree matching of builder return values, all over type-checked MIR (custom rustc_private driver)'
@@ -114,13 +114,14 @@ CONTROLS = [
     'S10|<verif_controls::StaleScan<O, F, A> as Observer>::next',
     'S10|<verif_controls::SwappedPairs<O, Item> as Observer>::next',
     'S12|<verif_controls::QuietOnFinished<O> as Observer>::complete',
+    'S13|verif_controls::PreCompleted.completed_one',
     'S11|verif_controls::ctl_second',
     'S11|verif_controls::ctl_smallest',
 ]
 
 
 def check(cx):
-    return s1(cx) + s234(cx) + s5(cx) + s6(cx) + s7(cx) + s8(cx) + s9(cx) + s10(cx) + s11(cx) + s12(cx)
+    return s1(cx) + s234(cx) + s5(cx) + s6(cx) + s7(cx) + s8(cx) + s9(cx) + s10(cx) + s11(cx) + s12(cx) + s13(cx)
 
 
 def _src_event(n):
@@ -1291,4 +1292,119 @@ def query_findings(cx, fns, prop, rule, what):
         res.append(Finding(prop, rule, cx.label(fn), bad is None,
                            ('%s %s: asked from inside a callback that already reads the same cell it panics (RefCell) or blocks (Mutex), and it is not a pure observation any more' % (what, bad[1])) if bad else
                            '%s is a pure read (shared guards only, no effect)' % what, g.loc(bad[0]) if bad else fn['span']))
+    return res
+
+
+# ---- S13: initial state of flags and counters
+def s13(cx):
+    from ..graph import fx_of
+    from ..core import const_bool
+    from ..expr import access_path, strip, render
+    F = cx.facts
+    res = []
+    # 1. how do the notification handlers write each bool / usize field of a state struct?
+    writes = {}      # (adt, field) -> set of 'true' / 'false' / '+' / '-' / '?'
+    for im in cx.observer_impls():
+        tag = roles.impl_tag(cx, im)
+        if cx.control != ('verif_controls' in tag):
+            continue
+        for meth in ('next', 'error', 'complete'):
+            fn = cx.method(im, meth)
+            if fn is None:
+                continue
+            g = cx.graph(fn['key'])
+            for x in g.nodes:
+                if x['kind'] != 'assign' or not x.get('lhs_ty'):
+                    continue
+                ty = F.tystr(x['lhs_ty'])
+                if ty not in ('bool', 'usize') and not ty.startswith('std::option::Option<'):
+                    continue
+                root, steps = access_path(x['lhs'])
+                plain = [st for st in steps if not st.startswith(('@', '!', 'as ', '['))]
+                if root[0] != 'arg' or root[1] != 1 or not plain:
+                    continue
+                r = strip(x['rhs'])
+                if ty.startswith('std::option::Option<'):
+                    if steps[-1:] != [plain[-1]]:
+                        continue      # (a write into the payload, not of the Option itself)
+                    kind = 'some' if (r[0] == 'agg' and r[2].endswith('Option::Some')) else ('none' if (r[0] == 'agg' and r[2].endswith('Option::None')) else '?')
+                elif const_bool(r) is not None:
+                    kind = 'true' if const_bool(r) else 'false'
+                elif r[0] == 'bin' and r[1].startswith('Add'):
+                    kind = '+'
+                elif r[0] == 'bin' and r[1].startswith('Sub'):
+                    kind = '-'
+                elif r[0] == 'field' and r[2] in ('0',) and strip(r[1])[0] == 'bin':
+                    kind = '+' if strip(r[1])[1].startswith('Add') else ('-' if strip(r[1])[1].startswith('Sub') else '?')
+                else:
+                    kind = '?'
+                writes.setdefault(plain[-1], set()).add(kind)
+    # 2. every construction site of a struct that has such a field
+    inits = {}       # (adt, field) -> [(expr, fn)]
+    for fn in F.fns.values():
+        fx = None
+        for bi, b in enumerate(fn['blocks']):
+            for si, st in enumerate(b['s']):
+                if st['k'] == 'assign' and st['rv']['r'] == 'agg' and st['rv'].get('ak') == 'adt' and st['rv'].get('fn'):
+                    if fx is None:
+                        fx = fx_of(F, fn)
+                    for nm, op in zip(st['rv']['fn'], st['rv']['ops']):
+                        inits.setdefault((st['rv']['p'], nm), []).append((fx.operand(op), fn))
+
+    def resolve(e, fn, depth=0):
+        """constant the initial value chains to: through fields of the constructing operator and parameters of `new`"""
+        e = strip(e)
+        while e[0] == 'call' and e[1] == 'std::clone::Clone::clone' and e[2]:
+            e = strip(e[2][0])
+        if e[0] == 'const':
+            return e[1].replace('const ', '').split('_')[0]
+        if e[0] == 'agg' and e[2].endswith('Option::None'):
+            return 'None'
+        if e[0] == 'agg' and e[2].endswith('Option::Some'):
+            return 'Some'
+        if depth > 2:
+            return None
+        if e[0] == 'field':
+            root, steps = access_path(e)
+            im = F.impl_of_fn(fn)
+            if root[0] == 'arg' and root[1] == 1 and im is not None and len(steps) == 1:
+                owner = roles.impl_tag(cx, im)
+                vals = {resolve(v, f2, depth + 1) for v, f2 in inits.get((owner, steps[0]), []) if f2.get('name') != 'clone'}
+                if len(vals) == 1:
+                    return list(vals)[0]
+        return None
+    n = 0
+    for (adt, field), sites in sorted(inits.items()):
+        if cx.control != ('verif_controls' in adt):
+            continue
+        w = writes.get(field)
+        if not w or not any(F.tystr(t) in ('bool', 'usize') or F.tystr(t).startswith('std::option::Option<') for f, t in roles.adt_fields(cx, adt) if f == field):
+            continue
+        if not any(roles.impl_tag(cx, im) == adt or adt.endswith(('ObserverData',)) or True for im in cx.observer_impls()):
+            continue
+        want = None
+        if w == {'true'}:
+            want = 'false'
+        elif w == {'false'}:
+            want = 'true'
+        elif w == {'+'}:
+            want = '0'
+        elif 'some' in w and w <= {'some', 'none'}:
+            want = 'None'
+        if want is None:
+            continue
+        for e, fn in sites:
+            if fn.get('name') == 'clone':
+                continue
+            got = resolve(e, fn)
+            if got is None:
+                continue       # configuration value that does not chain to a constant: not decided
+            n += 1
+            ok = got == want
+            res.append(Finding(ID, 'S13', '%s.%s' % (adt, field) + ('' if cx.control else '|' + fn['path'].split('::')[-1]), ok,
+                               ('starts as %s' % got) if ok else
+                               'the handlers only ever %s this field, so it has to start as %s, but %s initialises it with %s: the operator begins in its final state' %
+                               ('set it to ' + sorted(w)[0] if w != {'+'} else 'increment', want, fn['path'], got), fn['span']))
+    if not cx.control and n < 8:
+        res.append(Finding(ID, 'S13', 'floor', False, 'only %d initial values of flags/counters resolved, expected >= 8' % n))
     return res
